@@ -96,14 +96,17 @@ class CallGraph:
         if cached is not None:
             return cached
         names: Set[str] = set(fn.params)
+        declared_global: Set[str] = set()
         for n in fn_nodes(fn):
             if isinstance(n, ast.Name) and isinstance(n.ctx, (ast.Store, ast.Del)):
                 names.add(n.id)
             elif isinstance(n, ast.ExceptHandler) and n.name:
                 names.add(n.name)
-        for st in fn.body:
-            pass
+            elif isinstance(n, (ast.Global, ast.Nonlocal)):
+                declared_global.update(n.names)
+        names -= declared_global
         fn.__dict__["_locals"] = names
+        fn.__dict__["_globals_declared"] = declared_global
         return names
 
     def resolve_name(self, fn: FunctionInfo, name: str):
